@@ -302,6 +302,10 @@ def invalid_families():
         '<dtml-Comment>c</dtml-comment>', '<dtml-Tree x>a</dtml-tree>',
         '<dtml-Else x>a</dtml-else>', '<dtml-IF x>a</dtml-IF>',
         '<dtml-if x>a<dtml-Else>b</dtml-if>')
+    add('end-without-start', '<dtml-if x>a</dtml-IF>', '<dtml-in s>a</dtml-In>',
+        '<dtml-with o>a</dtml-WITH>', '<dtml-if x>a<dtml-else>b</dtml-If>',
+        '<dtml-let a=b>a</dtml-LET>', '<dtml-try>a<dtml-except>b</dtml-TRY>',
+        '<dtml-in s><dtml-if x>a</dtml-If></dtml-in>')
     add('end-without-start', '</dtml-if>', 'text</dtml-in>x',
         '<dtml-var x></dtml-var>', '<dtml-if a></dtml-in></dtml-if>',
         '<dtml-if a></dtml-if></dtml-if>')
@@ -413,6 +417,17 @@ def valid_families():
         '<dtml-var expr="x">', '<dtml-var "x[0] + y.z">',
         '<dtml-in s start=st size=3 orphan=1 overlap=2 previous>a</dtml-in>',
         '<dtml-in s size=3 next>a</dtml-in>',
+        # the batch start may name any variable, whatever characters its
+        # name consists of
+        '<dtml-in s start=^ size=2>a</dtml-in>',
+        '<dtml-in s start="a^" size=2>a</dtml-in>',
+        '<dtml-in s start="x\\" size=2>a</dtml-in>',
+        '<dtml-in s start="a.b*(" size=2>a</dtml-in>',
+        '<dtml-in s start="a]" size=2>a</dtml-in>',
+        '<dtml-in s start=$ size=2>a</dtml-in>',
+        '<dtml-in s start="?+{" size=2>a</dtml-in>',
+        '<dtml-in s start="a|b" size=2 previous>a</dtml-in>',
+        '<dtml-in s start="-" size=2 next>a</dtml-in>',
         '<dtml-in s sort=a,b/nocase/desc reverse prefix=p_1>a</dtml-in>',
         '<dtml-in "s" sort_expr="k" reverse_expr="r">a</dtml-in>',
         '<dtml-with o mapping only>a</dtml-with>',
